@@ -78,6 +78,20 @@ func SendCase[T any](ch chan<- T, v T) *SCase[T] {
 	return &SCase[T]{selCase{c: reflect.SelectCase{Dir: reflect.SelectSend, Chan: reflect.ValueOf(ch), Send: rv}}}
 }
 
+// SendCaseOf(ch).With(v) is SendCase(ch, v) for rewritten code: the element type is inferred from the channel alone and
+// v is then an ordinary argument of type T, so everything assignable to T is accepted (a concrete type for an interface
+// channel, untyped constants, nil), as in the original send statement.
+func SendCaseOf[T any](ch chan<- T) *SCase[T] {
+	return &SCase[T]{selCase{c: reflect.SelectCase{Dir: reflect.SelectSend, Chan: reflect.ValueOf(ch)}}}
+}
+
+func (c *SCase[T]) With(v T) *SCase[T] {
+	rv := reflect.New(reflect.TypeOf((*T)(nil)).Elem()).Elem()
+	rv.Set(reflect.ValueOf(&v).Elem())
+	c.c.Send = rv
+	return c
+}
+
 // Val returns the received value (zero value when the channel was closed).
 func (c *RCase[T]) Val() T {
 	var t T
